@@ -643,3 +643,64 @@ func varintShiftBounds(body *ast.BlockStmt) []int {
 	})
 	return out
 }
+
+// c20PresenceTests: proto3 emits a scalar field on the wire exactly when it differs from
+// its zero value. In both generated families the size and marshal code decides that with
+// `x.F != 0` (`!= ""`, `!= false`, `len(x.F) > 0`). An ordering comparison in its place
+// (`x.F > 0`) drops negative values from the encoding of ONE family: the other family
+// encodes them, and bytes produced by the one no longer re-encode identically in the other.
+func c20PresenceTests(cx *Ctx, r *Report, files []*genFile, rule string) {
+	rel := func(p string) string { return strings.TrimPrefix(p, cx.Repo+"/") }
+	for _, g := range files {
+		if g.astFile == nil {
+			continue
+		}
+		nTests := 0
+		var bad []string
+		ast.Inspect(g.astFile, func(n ast.Node) bool {
+			ifs, ok := n.(*ast.IfStmt)
+			if !ok {
+				return true
+			}
+			be, ok := ifs.Cond.(*ast.BinaryExpr)
+			if !ok {
+				return true
+			}
+			sel, ok := be.X.(*ast.SelectorExpr)
+			if !ok {
+				return true
+			}
+			id, ok := sel.X.(*ast.Ident)
+			if !ok || (id.Name != "x" && id.Name != "m") {
+				return true
+			}
+			lit, ok := be.Y.(*ast.BasicLit)
+			isZero := ok && (lit.Value == "0" || lit.Value == `""`)
+			if idy, isID := be.Y.(*ast.Ident); isID && (idy.Name == "false" || idy.Name == "nil") {
+				isZero = true
+			}
+			if !isZero {
+				return true
+			}
+			nTests++
+			if be.Op != token.NEQ && be.Op != token.EQL {
+				bad = append(bad, fmt.Sprintf("%s.%s %s %s at line %d", id.Name, sel.Sel.Name, be.Op, exprText(be.Y), g.fset.Position(be.Pos()).Line))
+			}
+			return true
+		})
+		if nTests == 0 {
+			continue
+		}
+		r.check(len(bad) == 0, rule, rel(g.path), rel(g.path), fmt.Sprintf("%d presence tests of scalar fields compare with the zero value by !=", nTests), "generated size/marshal code tests a field's presence with an ordering comparison ("+strings.Join(bad, "; ")+"): values on the other side of zero are silently left out of this family's encoding, the other family writes them - the two families no longer encode the message identically")
+	}
+}
+
+func exprText(e ast.Expr) string {
+	switch x := e.(type) {
+	case *ast.BasicLit:
+		return x.Value
+	case *ast.Ident:
+		return x.Name
+	}
+	return "?"
+}
